@@ -63,14 +63,19 @@ func genC14(r *Rng, e *Emitter, n int) {
 			}
 			flat := r.flatOf(pts, stride)
 			e.tally("op=points")
+			var pt geom.Coord
 			e.emit("C14.points", runSx(stride, flat), guard(func() string {
 				switch r.Intn(2) {
 				case 0:
-					return okPt(xy.MultiPointCentroid(geom.NewMultiPointFlat(l, flat)))
+					pt = xy.MultiPointCentroid(geom.NewMultiPointFlat(l, flat))
 				default:
-					return okPt(xy.PointsCentroidFlat(l, flat))
+					pt = xy.PointsCentroidFlat(l, flat)
 				}
+				return okPt(pt)
 			}))
+			if pt != nil {
+				e.watch("C14.points", runSx(stride, flat), func() string { return okPt(pt) })
+			}
 		case k < 4: // lines
 			nl := 1 + r.Intn(3)
 			var runs []string
@@ -93,12 +98,18 @@ func genC14(r *Rng, e *Emitter, n int) {
 				ends = append(ends, len(all))
 			}
 			e.tally("op=lines")
+			var lpt geom.Coord
 			e.emit("C14.lines", "("+strings.Join(runs, " ")+")", guard(func() string {
 				if r.chance(1, 2) {
-					return okPt(xy.LinesCentroid(lines[0], lines[1:]...))
+					lpt = xy.LinesCentroid(lines[0], lines[1:]...)
+				} else {
+					lpt = xy.MultiLineCentroid(geom.NewMultiLineStringFlat(l, all, ends))
 				}
-				return okPt(xy.MultiLineCentroid(geom.NewMultiLineStringFlat(l, all, ends)))
+				return okPt(lpt)
 			}))
+			if lpt != nil {
+				e.watch("C14.lines", "("+strings.Join(runs, " ")+")", func() string { return okPt(lpt) })
+			}
 		case k < 8: // polygons with holes, multi-polygons with disjoint members
 			np := 1 + r.Intn(3)
 			var polys []*geom.Polygon
@@ -143,20 +154,25 @@ func genC14(r *Rng, e *Emitter, n int) {
 				e.tally(fmt.Sprintf("holes=%d", len(rings)-1))
 			}
 			e.tally("op=polys")
+			var ppt geom.Coord
 			e.emit("C14.polys", "("+strings.Join(psx, " ")+")", guard(func() string {
 				switch r.Intn(3) {
 				case 0:
-					return okPt(xy.PolygonsCentroid(polys[0], polys[1:]...))
+					ppt = xy.PolygonsCentroid(polys[0], polys[1:]...)
 				case 1:
-					return okPt(xy.MultiPolygonCentroid(geom.NewMultiPolygonFlat(l, allFlat, endss)))
+					ppt = xy.MultiPolygonCentroid(geom.NewMultiPolygonFlat(l, allFlat, endss))
 				default:
 					c, err := xy.Centroid(geom.NewMultiPolygonFlat(l, allFlat, endss))
 					if err != nil {
 						return "(err other)"
 					}
-					return okPt(c)
+					ppt = c
 				}
+				return okPt(ppt)
 			}))
+			if ppt != nil {
+				e.watch("C14.polys", "("+strings.Join(psx, " ")+")", func() string { return okPt(ppt) })
+			}
 		default: // ring direction and signed area of a simple ring
 			R := float64(100 + r.Intn(50000))
 			rg := r.starRing(offx, offy, R, 2*R, 3+r.Intn(10), r.chance(1, 2))
